@@ -18,13 +18,13 @@ for d in sorted(glob.glob(os.path.join(ROOT, 'seeded', 'C*-*m*'))):
             elif 'OK property' in t: res[tier] = 'missed'
     m['detected'] = res
     json.dump(m, open(os.path.join(d, 'meta.json'), 'w'), indent=1)
-    rows.append((os.path.basename(d), m.get('property'), (m.get('summary') or '').replace('\n', ' ')[:160], (m.get('needs') or '').replace('\n', ' ')[:160], res.get('quick', '-'), res.get('thorough', '-')))
+    rows.append((os.path.basename(d), m.get('property'), (m.get('summary') or '').replace('\n', ' ')[:160], (m.get('needs') or '').replace('\n', ' ')[:160], res.get('quick', '-'), res.get('thorough', '-'), (m.get('not_pursued') or m.get('detected_by_other_check') or '').replace('\n', ' ')))
 with open(os.path.join(ROOT, 'seeded', 'RESULTS.md'), 'w') as f:
     f.write('# Seeded changes (written by independent sub-agents from the property text only) and what the checks report\n\n')
     f.write('Each directory holds patch.diff, the demonstration test, meta.json and result/ (driver output of `tools/seedtest.sh`).\n\n')
-    f.write('| seed | property | change | needs | quick | thorough |\n|---|---|---|---|---|---|\n')
+    f.write('| seed | property | change | needs | quick | thorough | note |\n|---|---|---|---|---|---|---|\n')
     for r in rows:
-        f.write('| %s | %s | %s | %s | %s | %s |\n' % tuple(str(x).replace('|', '/') for x in r))
+        f.write('| %s | %s | %s | %s | %s | %s | %s |\n' % tuple(str(x).replace('|', '/') for x in r))
     det = sum(1 for r in rows if r[4] == 'detected' or r[5] == 'detected')
     f.write('\n%d seeded changes, %d detected (quick or thorough).\n' % (len(rows), det))
 fs = []
